@@ -337,3 +337,24 @@ pub fn sig_only_tolerated(issued_token: &str, pres: &Presentation) -> Option<boo
         _ => crate::report::machinery_error("spec/verify_tokens.py could not be run (the reference decides whether an altered signature is still valid)"),
     }
 }
+
+/// Authentic tokens minted by the reference over messages that are NOT UTF-8 (plus one UTF-8 control per
+/// protocol and footer), `spec/foreign_tokens.py`. Each: {"proto", "token", "msg_hex", "footer", "valid_utf8"}.
+pub fn foreign_tokens() -> Vec<Value> {
+    static CACHE: std::sync::OnceLock<Vec<Value>> = std::sync::OnceLock::new();
+    CACHE
+        .get_or_init(|| {
+            let dir = crate::report::verif_dir();
+            let tmp = dir.join("target").join("tmp");
+            let _ = std::fs::create_dir_all(&tmp);
+            let out = tmp.join(format!("foreign-{}.json", std::process::id()));
+            let st = std::process::Command::new("python3").arg(dir.join("spec/foreign_tokens.py")).arg(&out).output();
+            let txt = std::fs::read_to_string(&out).unwrap_or_default();
+            let _ = std::fs::remove_file(&out);
+            match (st, serde_json::from_str::<Vec<Value>>(&txt)) {
+                (Ok(o), Ok(v)) if o.status.success() && !v.is_empty() => v,
+                _ => crate::report::machinery_error("spec/foreign_tokens.py produced nothing"),
+            }
+        })
+        .clone()
+}
